@@ -39,6 +39,9 @@ def parseOp (nk : Nat) (s : String) : Option Op :=
   | ['P', k] => (digit? k).bind fun k => if k < nk then some (.lsp k) else none
   | ['G'] => some .range
   | ['c'] => some .closeAll
+  | ['L', k, 'g'] => (digit? k).bind fun k => if k < nk then some (logSetupOp k .good) else none
+  | ['L', k, 'b'] => (digit? k).bind fun k => if k < nk then some (logSetupOp k .badLevel) else none
+  | ['L', k, 'e'] => (digit? k).bind fun k => if k < nk then some (logSetupOp k .encoderFails) else none
   | ['O', k, 'o'] => (digit? k).bind fun k => if k < nk then some (.ln k true) else none
   | ['O', k, 'f'] => (digit? k).bind fun k => if k < nk then some (.ln k false) else none
   | _ => none
@@ -71,9 +74,10 @@ def numIn (s : String) (lo hi : Nat) : Bool :=
 
 /-- `writers` lines: only the client operations -/
 def clientProg (s : String) : Bool :=
-  s.toList.all fun c => c == 'O' || c == 'o' || c == 'f' || c == 'c' || c == ',' || c == ';' || c == '-' || (digit? c).isSome
+  s.toList.all fun c => c == 'O' || c == 'o' || c == 'f' || c == 'c' || c == 'L' || c == 'g' || c == 'b' || c == 'e' ||
+    c == ',' || c == ';' || c == '-' || (digit? c).isSome
 
-def plainProg (s : String) : Bool := s.toList.all fun c => c != 'O' && c != 'c' && c != 'P'
+def plainProg (s : String) : Bool := s.toList.all fun c => c != 'O' && c != 'c' && c != 'P' && c != 'L'
 
 /-- `hosts` lines: only `P<k>` and `c` -/
 def hostsProg (s : String) : Bool :=
@@ -101,7 +105,9 @@ def handle : List String → String
         | some sc => runCase nk ps sc
   | ["writers", nk, progs, sched] =>
     -- the same model, driven through the real log-writer client (Logging.openWriter / closeLogs):
-    -- `O<k>o` / `O<k>f` openWriter with key k whose OpenWriter succeeds / fails, `c` closeLogs
+    -- `O<k>o` / `O<k>f` openWriter with key k whose OpenWriter succeeds / fails, `c` closeLogs,
+    -- `L<k>g` / `L<k>b` / `L<k>e` a whole log set-up (BaseLog.provisionCommon) on writer key k that comes up /
+    -- fails on its level / fails on its encoder AFTER the writer was opened (`logSetupOp`)
     if !clientProg progs then "bad-op" else
     match parseNk nk with
     | none => "bad-op"
